@@ -36,6 +36,7 @@ type ReplayFile struct {
 
 type assertFailed struct{ label string }
 type assumeFailed struct{}
+type knownFinding struct{ label, kf string }
 
 var st struct {
 	mu     sync.Mutex
@@ -70,6 +71,16 @@ func U8(name string) uint8   { return uint8(next(name)) }
 func Int(name string) int    { return int(next(name)) }
 func Bool(name string) bool  { return next(name)&1 == 1 }
 
+// Bytes returns a non-nil byte slice of opaque content and length in [0,max]
+// (the length is a solver variable under the engine).
+func Bytes(name string, max int) []byte {
+	n := int(next(name))
+	if n < 0 || n > max {
+		panic(assumeFailed{})
+	}
+	return make([]byte, n)
+}
+
 // Choose returns a value in [0,n): an exhaustively explored finite choice.
 func Choose(name string, n int) int { return int(next(name)) % n }
 
@@ -97,6 +108,9 @@ func AssertKF(cond bool, label, kf string, region bool) {
 		return
 	}
 	if !cond {
+		if region {
+			panic(knownFinding{label, kf})
+		}
 		panic(assertFailed{label})
 	}
 }
@@ -129,16 +143,22 @@ func Quiesce() {
 	for i := 0; i < 20; i++ {
 		runtime.Gosched()
 	}
-	time.Sleep(20 * time.Millisecond)
+	time.Sleep(time.Duration(quiesceMs) * time.Millisecond)
 	for i := 0; i < 20; i++ {
 		runtime.Gosched()
 	}
 }
 
+// quiesceMs is how long the native Quiesce waits; harnesses whose real code
+// sleeps (the message queue's 100 ms retry back-off) raise it.
+var quiesceMs = 20
+
+func SetNativeQuiesceMs(ms int) { quiesceMs = ms }
+
 func Yield() { runtime.Gosched() }
 
 // Tick fires the earliest pending virtual timer (engine); natively it waits.
-func Tick() bool { time.Sleep(150 * time.Millisecond); return true }
+func Tick() bool { time.Sleep(150 * time.Millisecond); return false }
 
 // Param returns a harness bound chosen per tier.
 func Param(name string, def int) int {
@@ -206,6 +226,8 @@ func ReplayMain(entries map[string]func()) bool {
 						outcome = "ASSERT-FAILED " + r.label
 					case assumeFailed:
 						outcome = "ASSUME-FAILED"
+					case knownFinding:
+						outcome = "KNOWN-FINDING " + r.kf + " " + r.label
 					default:
 						outcome = "PANIC " + strings.ReplaceAll(fmt.Sprint(r), "\n", " ")
 					}
